@@ -221,6 +221,8 @@ def run(ctx):
                          "instanceID is a read-only preload of the instance_id setting (default uid)", w2j.loc(), why_fail=repr(k))
             if k.get("name") == "instanceName":
                 r5.check(k.get("bind") == {"calculate": iname} and k.get("type") == "calculate", f"meta[{desc}]:instanceName", "instanceName calculates exactly the instance_name setting", w2j.loc(), why_fail=repr(k))
+    from .c19 import meta_sealed_rule
+    meta_sealed_rule(ctx, r5, "C11.R5")
     rules.append(r5)
 
     # ------------------------------------------------------------------ R6
